@@ -308,6 +308,11 @@ func monitorWu(c wuCase, o wuObs, rep *emit.Report) (nontrivial bool) {
 			if sec != lastSec+1 { // a gap: runs are broken
 				starveLen, satLen = 0, 0
 			}
+			if q.Ms-c.Ops[i-1].Ms > 500 {
+				// no request for longer than a statistic bucket: the demand is not sustained (the
+				// calculator reads the pass count of the previous 1000 ms at bucket granularity)
+				satLen = 0
+			}
 			if starveLen == 0 {
 				starveStart = sec
 				admittedInRun = false
@@ -355,7 +360,8 @@ func monitorWu(c wuCase, o wuObs, rep *emit.Report) (nontrivial bool) {
 			}
 		}
 		// 4. full threshold after sustained saturating demand
-		if !degenerate && T >= float64(2*cf) && satLen >= 4*int(c.Period)+5 && a != T {
+		// (the value on the warning line itself is Nextafter(1/(1/T)), one or two ulps from T)
+		if !degenerate && T >= float64(2*cf) && satLen >= 4*int(c.Period)+5 && a < T*(1-math.Pow(2, -50)) {
 			fail(i, "C11_wu_reaches_full", "not-warmed-up-after-sustained-demand", "%d saturated seconds, allowed=%v threshold=%v stored=%d", satLen, a, T, o.Stored[i])
 		}
 		// 5. a steady single-token demand is not starved
